@@ -106,6 +106,74 @@ static LOGGER: FormattingLogger = FormattingLogger;
 
 static LAST_PANIC: std::sync::Mutex<String> = std::sync::Mutex::new(String::new());
 
+/// Environment pass: a sample of the (deterministic, quick) cases is run a second time from inside the destructor of
+/// an application thread-local while its thread is exiting — after the library has been used on that thread, with
+/// the application's thread-local created before and after the library's first use (destructors run in reverse
+/// order of creation).  A library that keeps per-thread scratch state must still work there; a result that differs
+/// from the ordinary one is attached to the case (so it also disagrees with the model) and reported by the oracle.
+fn thread_exit_pass(prop: &str, out: &mut Out) {
+    const SKIP: [&str; 12] = ["serialt", "serialts", "serialmt", "serialmts", "bigpage", "e2e", "noop", "port", "odk", "soak", "pagefromlen", "typefromlen"];
+    let eligible: Vec<usize> = (0..out.cases.len())
+        .filter(|&i| {
+            let c = &out.cases[i];
+            let verb = c.split(' ').next().unwrap_or("");
+            c.len() < 3000 && !SKIP.contains(&verb) && !(verb == "data" && c.len() > 9) && !c.contains('~')
+        })
+        .collect();
+    if eligible.is_empty() {
+        return;
+    }
+    let step = (eligible.len() / 300).max(1);
+    let sample: Vec<usize> = eligible.iter().cloned().step_by(step).take(300).collect();
+    let lines: Vec<String> = sample.iter().map(|&i| out.cases[i].clone()).collect();
+    struct OnExit {
+        lines: Vec<String>,
+        tx: std::sync::mpsc::Sender<Vec<String>>,
+    }
+    impl Drop for OnExit {
+        fn drop(&mut self) {
+            let res: Vec<String> = self.lines.iter().map(|l| implside::run_case(l)).collect();
+            let _ = self.tx.send(res);
+        }
+    }
+    thread_local! {
+        static APP: std::cell::RefCell<Option<OnExit>> = const { std::cell::RefCell::new(None) };
+    }
+    for app_first in [true, false] {
+        let (tx, rx) = std::sync::mpsc::channel();
+        let ls = lines.clone();
+        let h = std::thread::spawn(move || {
+            let guard = OnExit { lines: ls.clone(), tx };
+            if app_first {
+                APP.with(|a| *a.borrow_mut() = Some(guard));
+                for l in ls.iter().take(40) {
+                    let _ = implside::run_case(l);
+                }
+            } else {
+                for l in ls.iter().take(40) {
+                    let _ = implside::run_case(l);
+                }
+                APP.with(|a| *a.borrow_mut() = Some(guard));
+            }
+        });
+        let _ = h.join();
+        let got: Vec<String> = rx.try_recv().unwrap_or_default();
+        out.stat(&format!("env.thread-exit-destructor.{}", got.len()));
+        for (k, &i) in sample.iter().enumerate() {
+            match got.get(k) {
+                Some(g) if *g == out.impls[i] => {}
+                other => {
+                    let shown = other.map(|s| s[..s.len().min(60)].to_string()).unwrap_or_else(|| "(the destructor did not finish)".into());
+                    if !out.impls[i].contains(" !at-thread-exit:") {
+                        out.impls[i].push_str(&format!(" !at-thread-exit:{}", shown));
+                        out.fail(i, format!("{} the same call gives a different result when made from a thread-local destructor at thread exit ({} the library's first use on that thread): '{}'", prop, if app_first { "application thread-local created before" } else { "application thread-local created after" }, shown));
+                    }
+                }
+            }
+        }
+    }
+}
+
 fn main() {
     std::panic::set_hook(Box::new(|info| {
         if let Ok(mut g) = LAST_PANIC.lock() {
@@ -152,6 +220,7 @@ fn main() {
                     out.fail(i, format!("{} the implementation panicked in a direct call made by the oracle after this case: {}", prop, msg));
                 }
             }
+            thread_exit_pass(prop, &mut out);
             std::fs::create_dir_all(outdir).expect("outdir");
             let mut f = std::io::BufWriter::new(std::fs::File::create(format!("{}/cases.txt", outdir)).unwrap());
             for c in &out.cases {
